@@ -90,7 +90,13 @@ def scenario(x, p):
             return DestStream(name)
         return FakeFile(name)
 
+    env = x.choice('env', ['normal', 'no temp dir'])
+
     def temp_file(**kw):
+        if env == 'no temp dir':
+            # TMPDIR points nowhere, the disk is full, ...: whatever the
+            # writer does instead must be as careful with the destination
+            raise OSError('no usable temporary directory')
         s = FaultyStream(k)
         state['temp'] = s
         return s
@@ -156,6 +162,13 @@ def scenario(x, p):
         else:
             x.check('a non-existing destination is not created',
                     dest not in files)
+    elif state['temp'] is None:
+        x.check('a write that succeeds without a temporary file leaves a '
+                'cart at the destination',
+                And(dest in files, len(files[dest]) > 0))
+        if fault != 'none' and not (fmt == '.p8' and fault == 'png'):
+            x.check('an internal failure surfaces as an error', False,
+                    info=fault)
     else:
         x.check('without a fault the destination receives the encoded cart',
                 And(dest in files, len(files[dest]) > 0,
